@@ -61,6 +61,7 @@ def main():
             print(p, 'rc=%d' % rc, ' | '.join(l[:160] for l in lines[-2:]))
     finally:
         sh('git -C /repo checkout -- .')
+        sh('/venv/bin/python harness/t1_extract.py', cwd=VERIF)      # the generated tables follow the tree again
         rc, out = sh('git -C /repo status --short')
         if out.strip():
             print('WARNING: /repo not clean:', out)
